@@ -25,9 +25,12 @@ def log_call(entry: tuple) -> None:
     CALLS.append(entry)
     path = os.environ.get('VF_CALL_LOG')
     if path:
-        with open(path, 'ab') as fh:
-            blob = pickle.dumps(entry, protocol=4)
-            fh.write(len(blob).to_bytes(4, 'big') + blob)
+        blob = pickle.dumps(entry, protocol=4)
+        fd = os.open(path, os.O_WRONLY | os.O_APPEND | os.O_CREAT, 0o644)
+        try:
+            os.write(fd, len(blob).to_bytes(4, 'big') + blob)  # one append per record: atomic across processes
+        finally:
+            os.close(fd)
 
 
 def read_log(path: str) -> list[tuple]:
